@@ -59,14 +59,14 @@ bool prop(Tape &t, Report &R) {
   s.labels.insert(cn[cbMode]);
   // Unoriented cells: CellOrientation::UNKNOWN is accepted by setCellOrientation and treated like N by
   // the geometry; "leaves every orientation unchanged" covers it too.  Decided at the end of the tape.
-  if (t.flip(1, 8)) {
+  // Only for global placement alone: its domain (C06) does not restrict orientations, that of
+  // legalization and detailed placement (C01) names the eight placed ones.
+  if (t.flip(1, 8) && flow == 0) {
     bool any = false;
     for (auto &c : s.cells)
       if (!c.fixed && c.polarity == 0 && !refIsTurn((CellOrientation)c.orient) && t.flip(1, 2)) c.orient = (int)CellOrientation::UNKNOWN, any = true;
     if (any) s.labels.insert("orientation:UNKNOWN-on-some-movable-cells");
   }
-  // a movable cell lower than a row (legalization must then fail, and fail cleanly); decided last
-  if (!usesGlobal) addShortMovable(s, t.next());
   for (auto &l : s.labels) R.classify(l);
 
   bool threwAny = false, movedAny = false;
